@@ -162,7 +162,14 @@ func searchC18() {
 	for _, mm := range f.m {
 		keys += len(mm)
 	}
-	ck.finish(map[string]int{"days": nDays, "moments": nMoments, "consecutive_day_pairs": nConsecutive, "attributes": len(f.m), "distinct_keys": keys, "observations": f.nObs}, samples)
+	// call history: no attribute of a lunar date (or of its Taoist / Buddhist view) moves when the day-boundary school of the date's
+	// shared eight-character object is switched — the attributes are functions of the pillars named in the statement, not of that setting
+	nProbe := 400
+	if tier == "thorough" {
+		nProbe = 6000
+	}
+	histProbes, histAccessors := histSectSweep(ck, nProbe)
+	ck.finish(map[string]int{"eightchar_school_probes": histProbes, "eightchar_school_accessor_comparisons": histAccessors, "days": nDays, "moments": nMoments, "consecutive_day_pairs": nConsecutive, "attributes": len(f.m), "distinct_keys": keys, "observations": f.nObs}, samples)
 }
 
 // c18Moment feeds every attribute of one moment into the function maps and checks the per-moment classical laws
